@@ -23,12 +23,13 @@ PERIOD, LIFE = 0.5, 1.0
 
 
 class Reconnect(Scenario):
-    def __init__(self, cause, trigger, rounds=1, alts=(), modes=('Q',), lease=False, flavour='tcp', gate=False):
+    def __init__(self, cause, trigger, rounds=1, alts=(), modes=('Q',), lease=False, flavour='tcp', gate=False, channel=False):
         self.name = 'reconnect'
         self.cause, self.trigger, self.rounds, self.lease = cause, trigger, rounds, lease
         self.flavour = flavour
+        self.channel = channel  # a channel whose local publisher still has credit is open when the connection ends
         self.gate = gate  # connect() of every later transport suspends until the explorer lets it finish
-        self.params = {'cause': cause, 'trigger': trigger, 'rounds': rounds, 'alts': list(alts), 'modes': list(modes), 'lease': lease, 'flavour': flavour, 'gate': gate}
+        self.params = {'cause': cause, 'trigger': trigger, 'rounds': rounds, 'alts': list(alts), 'modes': list(modes), 'lease': lease, 'flavour': flavour, 'gate': gate, 'channel': channel}
         self.world_kw = {'alts': alts, 'modes': modes, 'fault_budget': rounds if cause != 'healthy' else 0, 'horizon': 2.0 * rounds + 1.6, 'step_cap': 900}
 
     def setup(self, w):
@@ -46,7 +47,8 @@ class Reconnect(Scenario):
                     return f
                 return create_future(P(b'R:' + d))
 
-            return {'request_response': rr, 'request_stream': lambda h, p: RecPublisher(w, h.ep, 'pub%d' % i)}
+            return {'request_response': rr, 'request_stream': lambda h, p: RecPublisher(w, h.ep, 'pub%d' % i),
+                    'request_channel': lambda h, p: (RecPublisher(w, h.ep, 'chpub%d' % i), RecSubscriber(w, h.ep, 'chsub%d' % i, request_on_subscribe=5))}
 
         for i, c in enumerate(conns):
             if self.lease:
@@ -82,7 +84,20 @@ class Reconnect(Scenario):
             st['fut'] = watch_future(w, 'c', 'futA', client.request_response(P(b'late-A')))
             st['sub'] = RecSubscriber(w, 'c', 'subB')
             client.request_stream(P(b'sB')).initial_request_n(2).subscribe(st['sub'])
+            if self.channel:
+                st['chsub'] = RecSubscriber(w, 'c', 'subC')
+                st['chpub'] = RecPublisher(w, 'c', 'pubC')
+                client.request_channel(P(b'sC'), st['chpub']).initial_request_n(2).subscribe(st['chsub'])
 
+        if self.channel:
+            # the application keeps feeding its channel publisher for as long as nobody cancelled it
+            def emit(w, i):
+                st['chpub'].emit(P(b'up%d' % i))
+
+            w.add_actor('chpub', [Step('emit%d' % i, lambda w, i=i: emit(w, i),
+                                       guard=lambda w, i=i: 'chpub' in st and st['chpub'].subscriber is not None and not st['chpub'].cancelled
+                                       and st['chpub'].requested > i and (i == 0 or self._connected_round(w) >= 1))
+                                  for i in range(2)])
         w.add_actor('req', [Step('request', req, guard=lambda w: any(ev[0] == 'tx' and ev[2].type == R.SETUP for ev in w.log))])
         if trig == 'free':
             def rec(w):
@@ -228,6 +243,12 @@ def make_units(tier):
         K = 4
         for k in range(K):
             units.append({'cause': cause, 'trigger': trig, 'rounds': 1, 'bound': 1, 'shard': [k, K], 'alts': [], 'gate': True})
+    # a channel whose requester-side publisher still has credit when the connection ends; the application goes on emitting after the
+    # reconnect unless its publisher was cancelled
+    for cause, trig in COMBOS:
+        K = 4
+        for k in range(K):
+            units.append({'cause': cause, 'trigger': trig, 'rounds': 1, 'bound': 1, 'shard': [k, K], 'alts': [], 'channel': True})
     # the QUIC transport (the other one that reports a lost connection); eof and rst are the same event there
     for cause, trig in COMBOS:
         if cause == 'eof':
@@ -248,7 +269,7 @@ def bounds(tier):
 
 
 def scenario_of(unit):
-    return Reconnect(unit['cause'], unit['trigger'], unit['rounds'], alts=tuple(unit['alts']), lease=unit.get('lease', False), flavour=unit.get('flavour', 'tcp'), gate=unit.get('gate', False))
+    return Reconnect(unit['cause'], unit['trigger'], unit['rounds'], alts=tuple(unit['alts']), lease=unit.get('lease', False), flavour=unit.get('flavour', 'tcp'), gate=unit.get('gate', False), channel=unit.get('channel', False))
 
 
 def run_unit(unit, part):
@@ -256,7 +277,7 @@ def run_unit(unit, part):
 
 
 def scenario_from(name, params):
-    return Reconnect(params['cause'], params['trigger'], params['rounds'], tuple(params['alts']), tuple(params['modes']), params.get('lease', False), params.get('flavour', 'tcp'), params.get('gate', False))
+    return Reconnect(params['cause'], params['trigger'], params['rounds'], tuple(params['alts']), tuple(params['modes']), params.get('lease', False), params.get('flavour', 'tcp'), params.get('gate', False), params.get('channel', False))
 
 
 def replay(rec):
